@@ -99,6 +99,16 @@ def _solve_group(args):
           else:
             r = r1
             r["note"] = "counter-model satisfies the integer part of the path condition; floating-point feasibility of that path was not established by the solver"
+      if r is None and ob.meta.get("quantified") and ob.expect != "refutable":
+        r = smt.check_quantified(ob.assumptions, ob.goal, timeout_ms=ob.meta.get("timeout_ms", max(timeout, 30000)), seed=seed)
+        if r["status"] != "unsat" and ob.meta.get("search"):
+          # not proved: bounded exhaustive search for a failing input on the real code (a found input is a violation
+          # whatever the solver said; none found and no counter-model: undecided)
+          rep = _native(ob.meta["search"])
+          r["search"] = rep
+          if rep.get("reproduced"):
+            r["status"] = "sat"
+            r["backend"] = str(r.get("backend")) + " + native exhaustive search"
       if r is None and ob.expect == "refutable" and ob.meta.get("sat_hints"):
         # vacuity canary with suggested witnesses: a model of (assumptions and hint) is a model of the assumptions
         for hint in ob.meta["sat_hints"]:
@@ -142,7 +152,9 @@ def _solve_group(args):
       res["status"] = "violated"
       res["model"] = r.get("model", {})
       replay = ob.meta.get("replay")
-      if replay is not None:
+      if r.get("search") is not None:
+        res["replay"] = r["search"]
+      elif replay is not None:
         try:
           res["replay"] = replay(r.get("_model_obj"), ob)
         except Exception:
@@ -159,7 +171,7 @@ def _solve_group(args):
     else:
       res["status"] = "undecided"
       res["reason"] = "solver: " + str(r.get("reason", "unknown"))
-    res["meta"] = {k: v for k, v in ob.meta.items() if k not in ("replay", "sat_hints") and isinstance(v, (str, int, float, list, dict, bool))}
+    res["meta"] = {k: v for k, v in ob.meta.items() if k not in ("replay", "sat_hints", "search") and isinstance(v, (str, int, float, list, dict, bool))}
     out.append(res)
   return out
 
